@@ -364,6 +364,12 @@ impl Alphabet {
             maxdepth,
         }
     }
+    /// plain alphabet with all nine binary operators (EW, AW included)
+    pub fn all_ops(nprops: u8, maxdepth: u8) -> Alphabet {
+        let mut a = Alphabet::plain(nprops, maxdepth);
+        a.bi = ALL_BI.to_vec();
+        a
+    }
     pub fn extended(nprops: u8, maxdepth: u8, nwilds: u8, ndoms: u8) -> Alphabet {
         let mut a = Alphabet::plain(nprops, maxdepth);
         a.nwilds = nwilds;
